@@ -61,6 +61,21 @@ mutual
     | e :: es => okExpr C e && okExprs C es
 end
 
+/-- The evaluator's own skip test (`execStmts`: `if Plan.prunesStmt cfg.plan s.sid then` skip): a
+statement whose `StmtId` the plan removes executes nothing.  A statement without `sid` is never
+skipped.  A DEFINITION is not exempt: `hoist` registers it whatever `plan.stmts` says (only
+`plan.fns` decides), so its body can run. -/
+def stmtSkipped (plan : Option Eval.Plan) : Stmt → Bool
+  | .fnDef _ _ _ _ _ _ _ => false
+  | s => Eval.Plan.prunesStmt plan s.sid
+
+theorem stmtSkipped_none (s : Stmt) : stmtSkipped none s = false := by
+  cases s <;> simp [stmtSkipped, Eval.Plan.prunesStmt]
+
+theorem stmtSkipped_prunes {plan : Option Eval.Plan} {s : Stmt} (h : stmtSkipped plan s = true) :
+    Eval.Plan.prunesStmt plan s.sid = true := by
+  cases s <;> first | exact h | (simp [stmtSkipped] at h)
+
 mutual
   /-- `d`: the statement is inside a loop of the function body it belongs to. -/
   def okStmt (C : SCfg) (d : Bool) : Stmt → Bool
@@ -78,7 +93,7 @@ mutual
     | .expr e _ _ => okExpr C e
   def okStmts (C : SCfg) (d : Bool) : List Stmt → Bool
     | [] => true
-    | s :: rest => okStmt C d s && okStmts C d rest
+    | s :: rest => (stmtSkipped C.plan s || okStmt C d s) && okStmts C d rest
   def okBlock (C : SCfg) (d : Bool) : Block → Bool
     | .mk ss _ => okStmts C d ss
   def okOptBlock (C : SCfg) (d : Bool) : Option Block → Bool
@@ -477,8 +492,8 @@ mutual
     | s :: ss, cur, f, hsrc, hd, hda, ht, h => by
         simp only [srcStmts, Bool.and_eq_true] at hsrc
         simp only [checkStmts, List.append_eq_nil_iff] at h ht ⊢
-        simp only [okStmts, Bool.and_eq_true]
-        refine ⟨?_, ?_⟩
+        simp only [okStmts, Bool.and_eq_true, Bool.or_eq_true]
+        refine ⟨Or.inr ?_, ?_⟩
         · refine checkStmt_ok C hpl env cur hs s f hsrc.1 hd.head ?_ (TLe.mono (checkStmts_grow _ _ _ _) ht) h.1
           intro name n hmem
           exact hda name n (by rw [fnDefs_cons]; exact List.mem_append_left _ hmem)
@@ -552,7 +567,8 @@ theorem resolve_ok (spanLen : Bool) (numOk : Bytes → Bool) (strictIdx : Bool) 
 `resolve_ok` is about the program as such (`plan := none`).  A run with a plan that removes
 functions needs, in addition, that the code that is KEPT calls kept functions only: `keptBlock`, a
 decidable check of the annotated program against the plan (the body of a removed function is
-exempt: it is never hoisted). -/
+exempt: it is never hoisted; so is a statement the plan removes: the evaluator skips it —
+`stmtSkipped`, the evaluator's own test). -/
 
 mutual
   def keptExpr (plan : Option Eval.Plan) : Expr → Bool
@@ -587,7 +603,7 @@ mutual
     | .expr e _ _ => keptExpr plan e
   def keptStmts (plan : Option Eval.Plan) : List Stmt → Bool
     | [] => true
-    | s :: rest => keptStmt plan s && keptStmts plan rest
+    | s :: rest => (stmtSkipped plan s || keptStmt plan s) && keptStmts plan rest
   def keptBlock (plan : Option Eval.Plan) : Block → Bool
     | .mk ss _ => keptStmts plan ss
   def keptOptBlock (plan : Option Eval.Plan) : Option Block → Bool
@@ -703,10 +719,17 @@ theorem ok_plan_block (C : SCfg) (plan : Option Eval.Plan) (b : Block) : ∀ d,
   | expr e => rename_i d h1 h2; simp only [okStmt, keptStmt] at h1 h2 ⊢; exact hE e h1 h2
   | mk _ _ ih => intro d h1 h2; simp only [okBlock, keptBlock] at h1 h2 ⊢; exact ih d h1 h2
   | nil => simp [okStmts]
-  | cons _ _ ih1 ih2 =>
+  | cons s _ ih1 ih2 =>
     rename_i d h1 h2
-    simp only [okStmts, keptStmts, Bool.and_eq_true] at h1 h2 ⊢
-    exact ⟨ih1 d h1.1 h2.1, ih2 d h1.2 h2.2⟩
+    simp only [okStmts, keptStmts, Bool.and_eq_true, Bool.or_eq_true] at h1 h2 ⊢
+    refine ⟨?_, ih2 d h1.2 h2.2⟩
+    rcases h2.1 with hk | hk
+    · exact Or.inl hk
+    · right
+      rcases h1.1 with a | a
+      · have e : (C.withPlan none).plan = none := rfl
+        rw [e, stmtSkipped_none] at a; cases a
+      · exact ih1 d a hk
   | none => simp [okOptBlock]
   | some _ ih => rename_i d h1 h2; simp only [okOptBlock, keptOptBlock] at h1 h2 ⊢; exact ih d h1 h2
 
